@@ -116,6 +116,10 @@ pub assume_specification [f64::atan2] (y: f64, x: f64) -> (r: f64) ensures rv(r)
 // std::f64::consts::{FRAC_PI_2, PI} (constants are not supported by this Verus build: R12 subst)
 #[verifier::external_body] pub fn vf_frac_pi_2() -> (r: f64) ensures rv(r) == r_pi() / 2real { core::f64::consts::FRAC_PI_2 }
 #[verifier::external_body] pub fn vf_pi() -> (r: f64) ensures rv(r) == r_pi() { core::f64::consts::PI }
+// f64::EPSILON / f64::MIN_POSITIVE / f64::MAX (associated constants are not supported by this Verus build: R12 subst);
+// EPSILON is 2^-52 exactly; for the other two only the sign / a coarse bound is assumed
+#[verifier::external_body] pub fn vf_f64_epsilon() -> (r: f64) ensures rv(r) == 1real / 4503599627370496real { f64::EPSILON }
+#[verifier::external_body] pub fn vf_f64_min_positive() -> (r: f64) ensures 0real < rv(r) < 1real / 4503599627370496real { f64::MIN_POSITIVE }
 
 // ---- rotation
 impl Iso2 {
